@@ -527,3 +527,63 @@ func countNil(rt reflect.Type, g GV) int {
 	}
 	return n
 }
+
+// dumpGo prints a Go value deterministically (pointers followed, maps sorted),
+// so that failure messages do not contain addresses.
+func dumpGo(v reflect.Value) string {
+	switch v.Kind() {
+	case reflect.Ptr:
+		if v.IsNil() {
+			return "nil"
+		}
+		return "&" + dumpGo(v.Elem())
+	case reflect.Slice:
+		if v.IsNil() {
+			return "nil"
+		}
+		fallthrough
+	case reflect.Array:
+		s := "["
+		for i := 0; i < v.Len(); i++ {
+			if i > 0 {
+				s += " "
+			}
+			s += dumpGo(v.Index(i))
+		}
+		return s + "]"
+	case reflect.Map:
+		if v.IsNil() {
+			return "nil"
+		}
+		s := "map["
+		for i, k := range sortedKeys(v) {
+			if i > 0 {
+				s += " "
+			}
+			s += fmt.Sprintf("%q:%s", k, dumpGo(v.MapIndex(reflect.ValueOf(k).Convert(v.Type().Key()))))
+		}
+		return s + "]"
+	case reflect.Struct:
+		switch v.Type() {
+		case bigIntT:
+			b := v.Interface().(big.Int)
+			return b.String()
+		case bigFloatT:
+			b := v.Interface().(big.Float)
+			return b.Text('g', 40)
+		case ctyValueT:
+			return fmt.Sprintf("%#v", v.Interface())
+		}
+		s := "{"
+		for i := 0; i < v.NumField(); i++ {
+			if i > 0 {
+				s += " "
+			}
+			s += v.Type().Field(i).Name + ":" + dumpGo(v.Field(i))
+		}
+		return s + "}"
+	case reflect.String:
+		return fmt.Sprintf("%q", v.String())
+	}
+	return fmt.Sprint(v.Interface())
+}
